@@ -450,6 +450,8 @@ func Table(t *rapid.T, cfg Cfg) model.TableSpec {
 			}
 		}
 		s.Docs = chance(t, "svcdocs", 15)
+		// dynamic routes: the same declarations, registered under the WebService's lock
+		s.Dynamic = chance(t, "dynamicroutes", 12)
 		if cfg.Media && chance(t, "svcmedia", 20) {
 			s.Consumes = c.mediaList(t, "svcconsumes")
 			s.Produces = c.mediaList(t, "svcproduces")
